@@ -30,6 +30,9 @@ TRUSTED_BASE = [
     "gen/dump_tables.c: prints what the C compiler initialised (tables, constants) into AL/Gen",
     "hand-written AL.Impl model of the C control flow, tied by differential execution (sampling for unbounded domains)",
     "gcc, the sanitizers, harness/*.c, this runner's comparison",
+    "C01-C05 only: the finite-domain sweep theorems AL.Properties.Sweep.c0x_sweep are decided by evaluation (native_decide: axiom "
+    "<theorem>._native.native_decide.ax_*, i.e. the Lean compiler/interpreter is trusted for them); every other theorem is kernel-checked without it",
+    "C01-C05 only: binutils objdump as the second decoder the reference decoder AL.Spec.X86 is validated against",
 ]
 
 
@@ -126,6 +129,23 @@ def regen():
     return {"tables_json": tj, "tables": tables, "changed": changed, "rows": len(tables["instr"])}
 
 
+def build_tool(relsrc, flavour="plain"):
+    """compile a program of the repository itself (tools/asmline.c) with the library sources"""
+    src = os.path.join(REPO, relsrc)
+    key = src_hash([src])
+    d = os.path.join(CACHE, key)
+    os.makedirs(d, exist_ok=True)
+    out = os.path.join(d, os.path.basename(relsrc).replace(".c", "") + "-" + flavour)
+    if os.path.exists(out):
+        return out
+    cmd = ["gcc", "-w", "-std=gnu99"] + FLAVOURS[flavour] + ["-I" + os.path.join(REPO, "src"), "-I" + REPO, src] + lib_c_files() + ["-o", out + ".tmp"]
+    p = run(cmd)
+    if p.returncode != 0:
+        raise BuildError("tool does not compile:\n" + p.stderr[-3000:])
+    os.replace(out + ".tmp", out)
+    return out
+
+
 def lake_build(targets, timeout=3000):
     t0 = time.time()
     p = run(["lake", "build"] + list(targets), cwd=LEAN, timeout=timeout)
@@ -147,17 +167,25 @@ def scan_sources():
                 continue
             path = os.path.join(root, f)
             txt = open(path).read()
+            # the declared exception: finite-domain sweeps decided by evaluation (see TRUSTED_BASE, DESIGN.md 9)
+            sweep = os.path.relpath(path, LEAN).startswith(os.path.join("AL", "Properties", "Sweep") + os.sep)
             # strip block comments (nested not needed) and line comments
             txt2 = re.sub(r"/-.*?-/", lambda m: "\n" * m.group(0).count("\n"), txt, flags=re.S)
             txt2 = re.sub(r"--.*", "", txt2)
             for m in BAD_WORDS.finditer(txt2):
+                if sweep and m.group(0).strip() == "native_decide":
+                    continue
                 line = txt2.count("\n", 0, m.start()) + 1
                 hits.append(f"{os.path.relpath(path, HERE)}:{line}: {m.group(0).strip()}")
     return hits
 
 
+SWEEP_AXIOMS = {"Lean.ofReduceBool", "Lean.trustCompiler"}
+
+
 def audit(module, theorems):
-    """#print axioms for every property theorem; returns {thm: [axioms]} and the list of failures"""
+    """#print axioms for every property theorem; returns {thm: [axioms]} and the list of failures.
+    Theorems in AL.Properties.Sweep (finite-domain sweeps by native_decide) may additionally depend on Lean.ofReduceBool."""
     src = f"import {module}\n" + "".join(f"#print axioms {t}\n" for t in theorems)
     tmp = os.path.join(CACHE, f"audit_{module.replace('.', '_')}.lean")
     os.makedirs(CACHE, exist_ok=True)
@@ -176,7 +204,8 @@ def audit(module, theorems):
             continue
         res[t] = ax
         for a in ax:
-            if a not in ALLOWED_AXIOMS:
+            if a not in ALLOWED_AXIOMS and not (t.startswith("AL.Properties.Sweep.") and
+                                                (a in SWEEP_AXIOMS or a.startswith(t + "._native.native_decide.ax_"))):
                 bad.append(f"{t}: depends on {a}")
     return res, bad, out
 
